@@ -4,7 +4,7 @@
    (C05/C08) whenever the packed lookups equal the dense cells. *)
 From Coq Require Import List Arith ZArith Bool Lia.
 Import ListNotations.
-From YG Require Import LRBase LR0Build LR0More Resolve TableCert PackCore DriverSim Pipeline PipelineProofs Drivers.
+From YG Require Import LRBase LR0Build LR0More Resolve TableCert PackCore DriverSim Values Pipeline PipelineProofs Drivers.
 Local Open Scope nat_scope.
 
 Section Ext.
@@ -178,6 +178,58 @@ Proof.
   rewrite <- (arun_ext nst (gi_nsyms gi) g nsyms_ok lhs_ok T _ act (HagV v1) Hclosed fuel [init_entry] inp 0 [] ltac:(discriminate) Hst Hin).
   rewrite <- (arun_ext nst (gi_nsyms gi) g nsyms_ok lhs_ok T _ act (HagV v2) Hclosed fuel [init_entry] inp 0 [] ltac:(discriminate) Hst Hin).
   reflexivity.
+Qed.
+
+(* ---------- C06 / C07: no crash, no nil return, and the value of an accepted parse, for every variant ---------- *)
+Theorem pipeline_values t : generate_tables gi = inr t -> packed_agrees t ->
+  (* after every reduction the exposed state has a goto on the left-hand side *)
+  (forall q r, In (r, 0) (items (LRBase.st (t_aut t) q)) -> r <> 0 -> r < length g ->
+     exists q', gen_table g (t_aut t) (la_lookup (t_la t)) (sprec_of gi) (rprec_of gi) q (lhs_of g r) = Shift q') ->
+  forall (v : variant) (act : semact) (fuel : nat) (inp : list tok),
+    (forall x, In x inp -> fst x <> eof /\ fst x < gi_nsyms gi) ->
+    match parse v t g act fuel inp with
+    | RAcc value out =>
+        exists tr : vtree, vvalid g tr /\ Some (vroot g tr) = hd_error (rhs_of g 0) /\ vyield tr = inp /\ vpost tr = out /\ value = veval act tr
+    | RCrash | RNil => False
+    | _ => True
+    end.
+Proof.
+  intros Hgen Hpk Hgoto v act fuel inp Hinp.
+  assert (Hparse : parse v t g act fuel inp = arun (table_of v t) g act fuel [init_entry] inp 0 []).
+  { unfold parse, parse_from, parse_from_tab, init_b. destruct (is_object v).
+    - apply reinit_object. right. reflexivity.
+    - apply reinit_global. }
+  rewrite Hparse. clear Hparse.
+  revert Hgen Hpk Hgoto. unfold generate_tables, packed_agrees. fold g. destruct (unproductive gi); [|discriminate].
+  destruct (build g) as [aut|] eqn:Eb; [|discriminate].
+  intro H. inversion H; subst t. clear H. cbn [t_aut t_dense t_packed t_la].
+  set (nst := length aut). set (tabl := la_table g aut). set (T := action_fun gi aut tabl).
+  set (dense := dense_of nst (gi_nsyms gi) T).
+  set (pk := compress dense (gi_nterm gi) (gi_nsyms gi) nst).
+  intros Hpk Hgoto.
+  pose proof (build_structural g no_start_in_rhs rule0_lhs no_eof_in_rhs aut Eb) as Hstruct.
+  destruct (build_goto_lt g rule0_lhs no_eof_in_rhs aut Eb) as [Hpos Hlt].
+  assert (Hglen : 0 < length g).
+  { destruct rule0 as [S HS]. unfold rhs_of in HS. destruct (nth_error g 0) eqn:E; [|discriminate]. apply nth_error_Some. congruence. }
+  destruct (build_more g Hglen (or_intror I) aut Eb) as (Hvalid & _).
+  assert (Hitems : forall q r d, In (r, d) (items (LRBase.st aut q)) -> r < length g) by (intros q r d Hin; apply (Hvalid q (r, d) Hin)).
+  pose proof (gen_table_cert g aut (la_lookup tabl) (sprec_of gi) (rprec_of gi) Hitems rule0 Hstruct) as Hcert.
+  fold T in Hcert.
+  assert (Hshift : forall q a q', q < nst -> a < gi_nsyms gi -> T q a = Shift q' -> 0 < q' < nst).
+  { intros q a q' _ _ E. apply (c_shift _ _ _ Hcert) in E. split; [|eapply Hlt; exact E].
+    destruct (c_goto _ _ _ Hcert _ _ _ E) as [Hne _]. lia. }
+  assert (HagD : agree nst (gi_nsyms gi) T (dense_action nst dense)) by (apply dense_agrees; exact Hshift).
+  assert (Hclosed : closed nst (gi_nsyms gi) T) by (intros q a q' Hq Ha E; apply (Hshift q a q' Hq Ha E)).
+  assert (HagV : agree nst (gi_nsyms gi) T (table_of v {| t_aut := aut; t_la := tabl; t_dense := dense; t_warn := warnings gi aut tabl; t_conf := conflict_cells gi aut tabl; t_packed := pk; t_need_packed := need_packed pk nst (gi_nsyms gi) |})).
+  { intros q a Hq Ha. unfold table_of. cbn [t_aut t_need_packed t_packed t_dense]. fold nst.
+    destruct (is_packed v && need_packed pk nst (gi_nsyms gi)); [|apply HagD; assumption].
+    unfold packed_action. rewrite (Hpk q a Hq Ha). apply HagD; assumption. }
+  assert (Hst : Forall (fun e => e_st e < nst) [init_entry]) by (constructor; [exact Hpos|constructor]).
+  assert (Hin : Forall (fun x : tok => fst x < gi_nsyms gi) inp) by (apply Forall_forall; intros x Hx; apply Hinp; exact Hx).
+  rewrite <- (arun_ext nst (gi_nsyms gi) g nsyms_ok lhs_ok T _ act HagV Hclosed fuel [init_entry] inp 0 [] ltac:(discriminate) Hst Hin).
+  apply (arun_values g act aut T Hcert Hgoto fuel inp [init_entry] inp 0 []).
+  - intros a val Hx. apply (Hinp (a, val) Hx).
+  - split; [constructor|]. exists [], 0%Z. cbn. repeat split; auto.
 Qed.
 
 (* the hypothesis packed_agrees follows from the boolean conditions of C05_lookup *)
